@@ -20,7 +20,7 @@ EXPLANATION = (
     "(5) the special trie values are exactly the ones get_recurse dispatches on and the key table is prefix-free."
     " Added after seed round 3: (7) FLAG-FWD - every decoder that takes `more_available` receives its caller's own flag (the nested ESC-prefixed decode included); (8) the byte ranges of within_double_byte as integer intervals (C11.8)."
     ' Round 4: (9) string methods are applied to an event of the nested ESC decode only after an isinstance test excluded every tuple event (mouse 4-tuples and cursor-position 3-tuples).'
-    ' Round-4 triage: (10) a caller of parse_input without an event loop (the synchronous get_input) decodes a held partial sequence itself: every path from its first synchronous parse passes a test of _partial_codes whose true branch parses with wait_for_more=False.'
+    ' Round-4 triage: (10) a caller of parse_input without an event loop (the synchronous get_input) decodes a held partial sequence itself: every path from its first synchronous parse passes a test of _partial_codes whose true branch parses with wait_for_more=False. Round 5: (11) the SGR mouse decoder finds the first `M` or `m` with one joint test.'
 )
 NOT_DECIDED = (
     "That event names/coordinates are the documented ones for every sequence; equality of event lists under all cuts for value-dependent recognisers "
@@ -549,6 +549,36 @@ def rule_sync_timeout(ctx: Ctx) -> RuleResult:
     return rr
 
 
+def rule_first_terminator(ctx: Ctx) -> RuleResult:
+    """An SGR mouse report `ESC [ < b ; x ; y` ends at the *first* byte that is `M` (press / drag) or `m` (release).
+    Several reports can arrive in one read; a decoder that looks for one terminator first (`find("M")`, falling back
+    to `find("m")`) skips over a release that is followed by a press, and the same bytes decode differently when the
+    read happens to be cut between the two reports.  The two terminators have to be searched for together: one
+    membership test against both, no single-terminator find()/index()/split()/partition()."""
+    p = ctx.p
+    rr = RuleResult("SIB", "C05.11", "read_sgrmouse_info looks for the first `M` or `m` with one test for both terminators (no search for one of them alone)", floor=1)
+    fi = p.func("urwid.display.escape.KeyqueueTrie.read_sgrmouse_info")
+    terms = {"M", "m"}
+
+    def term_consts(e):
+        out = set()
+        for x in ast.walk(e):
+            if isinstance(x, ast.Constant) and isinstance(x.value, str) and x.value in terms:
+                out.add(x.value)
+            elif isinstance(x, ast.Constant) and isinstance(x.value, int) and chr(x.value) in terms if isinstance(x, ast.Constant) and isinstance(x.value, int) and 0 <= x.value < 256 else False:
+                out.add(chr(x.value))
+        return out
+
+    both = [c for c in fi.own_nodes() if isinstance(c, ast.Compare) and len(c.ops) == 1 and isinstance(c.ops[0], (ast.In, ast.NotIn)) and term_consts(c.comparators[0]) == terms]
+    rr.inst("joint terminator test", True, {"tests": [norm(c, 60) for c in both]})
+    single = [c for c in fi.own_nodes() if isinstance(c, ast.Call) and isinstance(c.func, ast.Attribute) and c.func.attr in ("find", "index", "rfind", "rindex", "split", "partition", "rpartition") and c.args and len(term_consts(c.args[0])) == 1 and isinstance(c.args[0], ast.Constant)]
+    for c in single:
+        rr.add(finding("SIB", fi, c, f"`{norm(c, 50)}` searches for one terminator of the SGR mouse report alone: when a release report (`m`) is followed in the same read by a press (`M`) the search skips the `m`, the first report is cut at the wrong place and passed through as garbage - while the same bytes split across two reads decode correctly", construct=f"single-terminator search {norm(c, 50)}"))
+    if not both and not single:
+        rr.add(finding("SIB", fi, fi.node, "read_sgrmouse_info no longer tests a byte against both terminators (`M`, `m`) at once", construct="no joint terminator test"))
+    return rr
+
+
 def run(ctx: Ctx):
     p = ctx.p
     out = [
@@ -573,6 +603,7 @@ def run(ctx: Ctx):
     out.append(c11.rule_dbe_ranges(ctx, "C05.8"))
     out.append(rule_event_kind(ctx))
     out.append(rule_sync_timeout(ctx))
+    out.append(rule_first_terminator(ctx))
     return out
 
 
@@ -581,6 +612,7 @@ from ..mutants import Mut  # noqa: E402
 _E = "urwid/display/escape.py"
 _R = "urwid/display/_raw_display_base.py"
 MUTANTS = [
+    Mut("sgr-mouse-prefers-press-terminator", _E, "KeyqueueTrie.read_sgrmouse_info", "        value = \"\"\n        pos_m = 0\n        found_m = False\n        for k in keys:\n            value += chr(k)\n            if k in {ord(\"M\"), ord(\"m\")}:\n                found_m = True\n                break\n            pos_m += 1\n        if not found_m:", "        value = \"\".join(chr(k) for k in keys)\n        pos_m = value.find(\"M\")\n        if pos_m < 0:\n            pos_m = value.find(\"m\")\n        found_m = pos_m >= 0\n        value = value[: pos_m + 1]\n        if not found_m:", "SIB|display.escape.KeyqueueTrie.read_sgrmouse_info"),
     Mut("sync-get-input-holds-partial-forever", "urwid/display/_raw_display_base.py", "urwid.display._raw_display_base.Screen.get_input", "        if self._partial_codes:\n            # an incomplete sequence and no event loop to set an alarm on: give the rest complete_wait\n            # to arrive here, then decode what there is as it stands\n            self._wait_for_input_ready(self.complete_wait)\n            new_keys, new_raw = self.parse_input(None, None, self.get_available_raw_input(), wait_for_more=False)\n            keys += new_keys\n            raw += new_raw\n", "", "PASS|display._raw_display_base.Screen.get_input"),
     Mut("sync-get-input-second-parse-still-waits", "urwid/display/_raw_display_base.py", "urwid.display._raw_display_base.Screen.get_input", "self.parse_input(None, None, self.get_available_raw_input(), wait_for_more=False)", "self.parse_input(None, None, self.get_available_raw_input())", "PASS|display._raw_display_base.Screen.get_input"),
     Mut("meta-branch-only-knows-mouse-tuples", _E, "process_keyqueue", "        if isinstance(run[0], tuple):", "        if urwid.util.is_mouse_event(run[0]):", "KIND|display.escape.process_keyqueue"),
